@@ -40,8 +40,8 @@ def worker_plan(c, ncases):
         lines += ['isapkey.enc scheme=isap128 obj=1001 n=%s ad=- in=0102' % hx(pattern(rng, 16)), 'isapkey.enc scheme=isap80pq obj=1002 n=%s ad=- in=03' % hx(pattern(rng, 16))]
     return lines
 
-def threaded_run(c, flavour, lines, nthreads, repeat, name, env=None):
-    drv = build(flavour)
+def threaded_run(c, flavour, lines, nthreads, repeat, name, env=None, drv=None):
+    drv = drv or build(flavour)
     d = '%s/run/C16_%s_%s' % (BUILD, name, flavour.replace('+', '_'))
     shutil.rmtree(d, ignore_errors=True); os.makedirs(d)
     open(d + '/plan.txt', 'w').write('\n'.join(lines) + '\n')
@@ -65,20 +65,21 @@ def threaded_run(c, flavour, lines, nthreads, repeat, name, env=None):
         c.violation('race:' + (gl.group(1) if gl else flavour), 'multi-threaded run failed (rc=%d): %s' % (rc, what[:400]), rd)
         return
     verdicts = {}
-    for t in range(nthreads):
-        tr = '%s/trace.t%d' % (d, t)
+    for t in list(range(nthreads)) + ['shared']:
+        tr = '%s/trace.%s' % (d, ('t%d' % t) if t != 'shared' else 'shared')
+        if t == 'shared' and not os.path.exists(tr): continue
         h = hashlib.sha256(open(tr, 'rb').read()).hexdigest()
         if h not in verdicts:
-            wd = '%s/v%d' % (d, t); os.makedirs(wd, exist_ok=True)
+            wd = '%s/v%s' % (d, t); os.makedirs(wd, exist_ok=True)
             verdicts[h] = validate_trace(tr, wd, 'Trace')
         r = verdicts[h]
         if r['status'] == 'infra': raise Infra(r.get('detail'))
         if r['status'] != 'ok':
-            rd = c.replay_dir('%s_%s_t%d' % (name, flavour.replace('+', '_'), t))
+            rd = c.replay_dir('%s_%s_t%s' % (name, flavour.replace('+', '_'), t))
             shutil.copy(tr, rd + '/trace.ndjson'); shutil.copy(d + '/plan.txt', rd + '/plan.threads.txt')
             if os.path.exists(r['dir'] + '/tlc.out'): shutil.copy(r['dir'] + '/tlc.out', rd + '/tlc.out')
             open(rd + '/replay.sh', 'w').write('#!/bin/sh\ncd /verif/spec && TRACE=%s/trace.ndjson ../tools/tlc.sh -workers 1 -config Trace.cfg Trace.tla | tail -40\n' % rd)
-            c.violation('thread-result:' + default_key(r), 'thread %d of %d computed a result that differs from the specification: %s %s' % (t, nthreads, r.get('detail'), (r.get('event') or '')[:300]), rd)
+            c.violation('thread-result:' + default_key(r), 'thread %s of %d computed a result that differs from the specification: %s %s' % (t, nthreads, r.get('detail'), (r.get('event') or '')[:300]), rd)
             return
         c.cov['traces_validated_against_impl'] += 1
     c.cov.setdefault('thread_runs', []).append({'flavour': flavour, 'threads': nthreads, 'repeat': repeat, 'distinct_trace_texts': len(verdicts), 'events_per_thread': verdicts[list(verdicts)[0]].get('events')})
@@ -100,6 +101,24 @@ def elf_scan(c, flavours):
             c.violation('global:' + syms[0].split()[-1], 'writable global data in the library (%s): %s' % (fl, '; '.join(s.split(':', 1)[-1] for s in syms[:4])), rd)
     c.cov['elf_scan'] = found
 
+def header_statics(c):
+    """the header-only part of the library (inline C++ members and helpers of src/ascon/*.h) is compiled into the
+    USER's program: a writable static coming from there is hidden shared state just as much as one in the library.
+    The program scanned is the driver that instantiates every documented member (harness/cxx/drv_cxxhash.cpp)."""
+    drv, cmd, out = build_extra('cxx')
+    if not drv: return None
+    rc, o = sh('nm -C %s' % drv)
+    # writable data (b/B/d/D), unique globals (u: statics of inline functions) and their guard variables;
+    # type information and virtual tables of classes are read-only data that nm also lists as weak objects
+    syms = [l for l in o.split('\n') if re.search(r' [bBdDu] ', l) and 'ascon::' in l and not re.search(r'typeinfo|vtable|VTT', l)]
+    c.cov['evaluations'] += 1; c.cov['header_scan'] = syms
+    if syms:
+        rd = c.replay_dir('header_statics')
+        open(rd + '/symbols.txt', 'w').write('\n'.join(syms) + '\n')
+        open(rd + '/replay.sh', 'w').write('#!/bin/sh\n%s && nm -C %s | grep "ascon::" | grep -E " [bBdDuV] "\n' % (cmd, drv))
+        c.violation('global:' + syms[0].split(None, 2)[-1][:60], 'writable static data instantiated from the library\'s headers in a user program: ' + '; '.join(x.split(None, 2)[-1] for x in syms[:4]), rd)
+    return drv
+
 def run(c):
     th = c.tier == 'thorough'
     c.mc_bg('SysThreads')
@@ -117,5 +136,12 @@ def run(c):
     if th:
         for fl in ('tsan+c32', 'tsan+dxor', 'c32'):
             threaded_run(c, fl, lines, 8, 3, 'mt')
+    # the C++ header-only classes and helpers: static scan, then all members concurrently under ThreadSanitizer
+    header_statics(c)
+    import c17
+    drvt, cmdt, outt = build_extra('cxx', 'tsan')
+    if drvt:
+        q = c17.cxx_plan(Sub(c)); cl = ['reset', 'threads.begin'] + [l for cs in q.cases[:16] for l in cs[0]]
+        threaded_run(c, 'tsan', cl, 6, 1, 'cxxmt', drv=drvt)
     c.cov['samples'] = c.cov['samples'] or [l for l in lines[:8]]
     c.cov['rule'] = 'one workload of %d plan lines executed concurrently by 6-8 threads (x repeats) on release and ThreadSanitizer builds; distinct = plan lines' % len(lines)
